@@ -89,7 +89,7 @@ static void reassignment_case() {
 }
 HARNESS h_decide_reassignment() { if (nondet_bool()) reassignment_case<2>(); else reassignment_case<0>(); }
 
-template<unsigned GRP>
+template<unsigned GRP, bool ANYFREQ>
 static void spill_case(const Model& m) {
   RALocalAllocator& la = make_allocator();
   PMap pm; WMap wm; Env e{pm, wm, la._cur_assignment};
@@ -97,8 +97,9 @@ static void spill_case(const Model& m) {
   env_init(e, m);
   BaseRAPass& pass = g_pass.v;
   pass._work_regs._data = g_reg_ptrs; pass._work_regs._size = W; pass._work_regs._capacity = W;
-  uint32_t fq[W];
-  for (unsigned w = 0; w < W; w++) { fq[w] = nondet_u8(); g_regs[w].v._live_stats._freq = float(fq[w]) * 0.0625f; }   // frequency k/16: cost k * 65536 exactly
+  // use frequencies: fixed, with ties between a dirty and a clean register (0.25 dirty costs what 0.5 clean costs), or any k/16 < 16
+  static const float kFreq[W] = { 0.5f, 0.25f, 0.5f, 1.0f, 0.125f, 0.25f };
+  for (unsigned w = 0; w < W; w++) g_regs[w].v._live_stats._freq = ANYFREQ ? float(nondet_u8()) * 0.0625f : kFreq[w];
   uint32_t spillable = nondet_u8() & pm.assigned._masks[GRP];
   V_ASSUME(spillable != 0);                                                // ASMJIT_ASSERT(spillable_regs != 0); callers pass occupied registers
   RAWorkId victim = kBadWorkId;
@@ -106,20 +107,46 @@ static void spill_case(const Model& m) {
   verif_observe(r); verif_observe(uint32_t(victim));
   V_ASSERT(r < P && ((spillable >> r) & 1), "decide: the spill candidate is one of the given registers");
   V_ASSERT(uint32_t(victim) < W && m.grp[uint32_t(victim) % W] == GRP && m.loc[uint32_t(victim) % W] == r, "decide: the reported work register is the one that lives in the chosen register");
-  // cost of a candidate = frequency cost + dirty penalty; the choice is a cheapest candidate (the lowest register among equals)
+  // the choice is a cheapest candidate under the allocator's own cost function (the lowest register among equals);
+  // the shape of that function is checked in h_decide_cost
   uint32_t cost_r = 0, costs[P];
-  for (unsigned p = 0; p < P; p++) {
+  if (!ANYFREQ) for (unsigned p = 0; p < P; p++) {
     costs[p] = 0xFFFFFFFFu;
-    for (unsigned w = 0; w < W; w++) if (m.grp[w] == GRP && m.loc[w] == p) costs[p] = fq[w] * 65536u + (m.dirty[w] ? 262144u : 0u);
+    for (unsigned w = 0; w < W; w++) if (m.grp[w] == GRP && m.loc[w] == p) costs[p] = la.calc_spill_cost(RegGroup(GRP), &g_regs[w].v, p);
     if (p == r) cost_r = costs[p];
   }
-  for (unsigned p = 0; p < P; p++) if ((spillable >> p) & 1) {
+  if (!ANYFREQ && (spillable & (spillable - 1))) for (unsigned p = 0; p < P; p++) if ((spillable >> p) & 1) {
     V_ASSERT(cost_r <= costs[p], "decide: no other candidate is cheaper to spill");
     if (p < r) V_ASSERT(cost_r < costs[p], "decide: among equally cheap candidates the lowest register is taken");
   }
   if (spillable & (spillable - 1)) V_WITNESS("spill-choice"); else V_WITNESS("spill-single");
 }
+// the cost function: frequency k/16 costs k * 65536, a dirty register (would need a store) costs 262144 more
+template<unsigned GRP>
+static void cost_case(const Model& m) {
+  RALocalAllocator& la = make_allocator();
+  PMap pm; WMap wm; Env e{pm, wm, la._cur_assignment};
+  la._cur_assignment._layout.reset(); la._cur_assignment.reset_maps();
+  env_init(e, m);
+  unsigned w = nondet_u8() & 7; V_ASSUME(w < W && m.grp[w] == GRP && m.loc[w] != NONE);
+  static const float kFreq[4] = { 0.0f, 0.0625f, 1.0f, 37.5f };
+  static const uint32_t kCost[4] = { 0u, 65536u, 1048576u, 39321600u };
+  unsigned k = nondet_u8() & 3;
+  g_regs[w].v._live_stats._freq = kFreq[k];
+  uint32_t c = la.calc_spill_cost(RegGroup(GRP), &g_regs[w].v, m.loc[w]);
+  verif_observe(c);
+  V_ASSERT(c == kCost[k] + (m.dirty[w] ? 262144u : 0u), "decide: spill cost is frequency times 2^20 plus a quarter of that for a dirty register");
+  if (m.dirty[w]) V_WITNESS("cost-dirty"); else V_WITNESS("cost-clean");
+}
+HARNESS h_decide_cost() {
+  Model m; model_nondet(m);
+  if (nondet_bool()) cost_case<0>(m); else cost_case<1>(m);
+}
 HARNESS h_decide_spill() {
   Model m; model_nondet(m);
-  if (nondet_bool()) spill_case<0>(m); else spill_case<1>(m);
+  if (nondet_bool()) spill_case<0, false>(m); else spill_case<1, false>(m);
+}
+HARNESS h_decide_spill_anyfreq() {
+  Model m; model_nondet(m);
+  if (nondet_bool()) spill_case<0, true>(m); else spill_case<1, true>(m);
 }
